@@ -299,7 +299,7 @@ class Timers(CheckTimerProvider):
 # configuration vocabulary
 
 DEFAULTS = dict(
-    mode="ack", closure=False, cks="crc32", crc_flag=False, idw_s=2, idw_d=2, seqw=2,
+    mode="ack", closure=False, cks="crc32", crc_flag=False, idw_s=2, idw_d=2, seqw=2, idv_s=1, idv_d=2, seq0=0,
     seg=4, mpl=512, size=8, nak="imm", shape="new", md_only=False,
     ack_limit=2, nak_limit=2, check_limit=2, disposition=False,
     ind=(True, True, True, True), msgs="none", fsreq=False, faults_s=None, faults_d=None, zero=False,
@@ -318,11 +318,11 @@ def full_cfg(cfg: dict) -> dict:
 
 
 def src_id(c) -> UnsignedByteField:
-    return UnsignedByteField(1, c["idw_s"])
+    return UnsignedByteField(c["idv_s"], c["idw_s"])
 
 
 def dst_id(c) -> UnsignedByteField:
-    return UnsignedByteField(2, c["idw_d"])
+    return UnsignedByteField(c["idv_d"], c["idw_d"])
 
 
 def ind_cfg(c) -> IndicationCfg:
@@ -531,8 +531,11 @@ def make_source(c, vfs=None, seq_provider=None, faults=None) -> Entity:
     faults = faults or RecFaults(c.get("faults_s"))
     local = LocalEntityCfg(src_id(c), ind_cfg(c), faults)
     table = RemoteEntityCfgTable([remote_cfg(c, dst_id(c))])
+    if seq_provider is None:
+        seq_provider = SeqCountProvider(c["seqw"] * 8)
+        seq_provider.count = c["seq0"]
     h = SourceHandler(cfg=local, user=user, remote_cfg_table=table, check_timer_provider=Timers(5.0),
-                      seq_num_provider=seq_provider or SeqCountProvider(c["seqw"] * 8))
+                      seq_num_provider=seq_provider)
     return Entity("S", h, user, faults, "src")
 
 
